@@ -12,9 +12,9 @@ open Cambrian
 /-- In the offspring every leaf value, chosen variant or enum option, presence/absence of an optional part and key
     of a resizable map is taken from at least one parent at the same position, and sub-structures are combined only
     among the parents that share that position. -/
-theorem C12_prov (cp sp : PClass) (s : SNode) (ps : List VNode) (out : VNode)
+theorem C12_prov (cp sp : PClass) (s : SNode) (ps : List VNode) (out : VNode) (hs : wf s = true)
     (hp : ∀ p ∈ ps, conf s p = true) (h : crossAcc cp sp s ps out = true) : prov s ps out = true :=
-  crossAcc_prov cp sp s ps out hp h
+  crossAcc_prov cp sp s ps out hs hp h
 
 /-- With a single parent the offspring is identical to it. -/
 theorem C12_single (cp sp : PClass) (s : SNode) (p out : VNode) (hp : conf s p = true)
